@@ -381,6 +381,11 @@ func buildC19(cfg *mon.Config) []*mon.Sub {
 			}
 		},
 		Exec: c19ExprExec,
+		Sample: func(p string) any {
+			i := strings.IndexByte(p, 0)
+			rest := strings.Split(p[i+1:], "\x02")
+			return map[string]string{"expression": p[:i], "goroutines": rest[0], "evaluations per goroutine": rest[1], "first variable set": decEnv(rest[3]).String()}
+		},
 	}
 	tmpls := &mon.Sub{
 		Name:   "shared-template",
@@ -401,6 +406,11 @@ func buildC19(cfg *mon.Config) []*mon.Sub {
 			}
 		},
 		Exec: c19TmplExec,
+		Sample: func(p string) any {
+			parts := strings.Split(p, "\x02")
+			nodes, _ := decTmpl(parts[0] + "\x00{}")
+			return map[string]string{"template": model.PrintTemplate(nodes), "goroutines": parts[1], "renderings per goroutine": parts[2]}
+		},
 	}
 	own := &mon.Sub{
 		Name:   "separate-instances",
